@@ -33,6 +33,24 @@ func genPriorityPlan(t *rapid.T) *Plan {
 		}
 		p.Instances = append(p.Instances, in)
 	}
+	if mode == "prompt" && rapid.IntRange(0, 2).Draw(t, "recovered") == 0 {
+		// health checks that fail for a while early in the run and answer healthy ever after: whoever stepped
+		// down (or was stopped) over them must preempt again once conditions are fault-free again
+		mode = "prompt, health checks failing early on"
+		for i := range p.Instances {
+			if rapid.IntRange(0, 2).Draw(t, "hc") == 0 {
+				continue
+			}
+			in := &p.Instances[i]
+			in.HasHealth, in.MCF = true, rapid.SampledFrom([]int{0, 1, 2, 3}).Draw(t, "mcf")
+			for j := rapid.IntRange(0, 3).Draw(t, "h_ok"); j > 0; j-- {
+				in.Health = append(in.Health, 0)
+			}
+			for j := rapid.IntRange(1, 4).Draw(t, "h_bad"); j > 0; j-- {
+				in.Health = append(in.Health, 1)
+			}
+		}
+	}
 	// start orders: a permutation with generated gaps, or a challenger started at a phase of the incumbent's heartbeat
 	order := rapid.Permutation(seq(n)).Draw(t, "order")
 	cur := time.Duration(1)
@@ -54,7 +72,7 @@ func genPriorityPlan(t *rapid.T) *Plan {
 			cur += odd(time.Duration(rapid.Int64Range(int64(h), int64(6*h)).Draw(t, "g")))
 		}
 	}
-	if mode == "prompt" && rapid.IntRange(0, 1).Draw(t, "succession") == 0 {
+	if mode != "adversarial" && rapid.IntRange(0, 1).Draw(t, "succession") == 0 {
 		// a leader leaves (gracefully or not): the instances that were turned away before must still
 		// preempt whoever of lower priority picks the vacant key up
 		for j := 0; j < rapid.IntRange(1, 2).Draw(t, "leavers"); j++ {
@@ -81,6 +99,9 @@ func genPriorityPlan(t *rapid.T) *Plan {
 		}
 	}
 	p.Horizon = cur + 14*h + ttl + 4*time.Second
+	if mode != "prompt" && mode != "adversarial" {
+		p.Horizon += 2*ttl + 6*h
+	}
 	nd := rapid.IntRange(0, 3).Draw(t, "ndice")
 	for i := 0; i < nd; i++ {
 		p.Dice = append(p.Dice, rapid.SampledFrom([]float64{0, 0.999999, 0.5}).Draw(t, "dice"))
@@ -99,7 +120,7 @@ func seq(n int) []int {
 
 func TestC10(t *testing.T) {
 	RunCheck(t, CheckSpec{Prop: "C10",
-		Rule:   "2-5 instances with priorities from {0,1,1,2,2,3,100} (ties frequent) and mixed takeover flags; every start order (a drawn permutation) with gaps from 2ns to 6H, or a challenger started at a phase (issued/applied/returning) of the incumbent's k-th heartbeat; two modes: 'prompt' (fault-free, RTT <= H/10, watch deliveries delayed by at most H/10; starts, and in half of the plans a leader that leaves and possibly comes back) and 'adversarial' (latencies up to H/3 per direction, stops and restarts) for the safety clause; oracle: every applied Update over another party's live record comes from an enabled instance with strictly higher priority than the stored one; in prompt mode a strictly higher-priority enabled instance next to a lower-priority leader leads within 3H, the deposed leader is down within H+2T of the replacing write, and after settling the owner never changes again and no outranked instance leads. Non-trivial = a preemption opportunity (enabled instance vs a different priority) or a tie among enabled instances; distinct by plan hash.",
+		Rule:   "2-5 instances with priorities from {0,1,1,2,2,3,100} (ties frequent) and mixed takeover flags; every start order (a drawn permutation) with gaps from 2ns to 6H, or a challenger started at a phase (issued/applied/returning) of the incumbent's k-th heartbeat; two modes: 'prompt' (fault-free, RTT <= H/10, watch deliveries delayed by at most H/10; starts, in half of the plans a leader that leaves and possibly comes back, in a third of them health checkers that answer unhealthy 1-4 times early in the run - below, at or above MaxConsecutiveFailures - and healthy ever after: the promptness clause then counts from the moment conditions are fault-free again, TTL + 3H after the last unhealthy answer) and 'adversarial' (latencies up to H/3 per direction, stops and restarts) for the safety clause; oracle: every applied Update over another party's live record comes from an enabled instance with strictly higher priority than the stored one; in prompt mode a strictly higher-priority enabled instance next to a lower-priority leader leads within 3H, the deposed leader is down within H+2T of the replacing write, and after settling the owner never changes again and no outranked instance leads. Non-trivial = a preemption opportunity (enabled instance vs a different priority) or a tie among enabled instances; distinct by plan hash.",
 		Gen:    genPriorityPlan,
 		Oracle: OracleC10})
 }
